@@ -132,3 +132,33 @@ func grammarFamily(tier string) fw.Family {
 		Check: func(i int64, r *fw.R) { checkGrammar(r, grammarString(i, n)) },
 		Desc:  func(i int64) string { return fmt.Sprintf("ParseSVGPath(%q)", grammarString(i, n)) }}
 }
+
+// number syntax: every pair of number spellings (signs, leading and trailing dots, exponents,
+// zeros) with every separator that the grammar allows between them (white space, comma, both,
+// nothing when the second number starts with a sign or a dot after a number that already has
+// one), as the arguments of an absolute and a relative lineto and as the radii of an arc.
+var numberSpellings = []string{"1", "-1", "+1", ".5", "-.5", "+.5", "1.", "-1.", "1.5", "0", "-0", "10", "1e1", "1E-1", "1.5e+1", "-2.5e0", ".5e1", "1.e1", "003", "1.25"}
+
+func numberCases() []string {
+	var out []string
+	hasDotOrExp := func(s string) bool { return strings.ContainsAny(s, ".eE") }
+	for _, a := range numberSpellings {
+		for _, b := range numberSpellings {
+			seps := []string{" ", ",", " , ", "\n"}
+			if b[0] == '-' || b[0] == '+' || (b[0] == '.' && hasDotOrExp(a)) {
+				seps = append(seps, "")
+			}
+			for _, sep := range seps {
+				out = append(out, "M0 0L"+a+sep+b, "M1 1l"+a+sep+b+" "+b+sep+a, "M0 0L"+a+sep+b+"h"+a+"v"+b)
+			}
+		}
+	}
+	return out
+}
+
+func numberFamily() fw.Family {
+	cases := numberCases()
+	return fw.Family{Name: fmt.Sprintf("ParseSVGPath number syntax: %d strings (20 spellings x 20 spellings x separators x 3 command frames)", len(cases)), N: int64(len(cases)),
+		Check: func(i int64, r *fw.R) { checkGrammar(r, cases[i]) },
+		Desc:  func(i int64) string { return fmt.Sprintf("ParseSVGPath(%q)", cases[i]) }}
+}
